@@ -29,9 +29,11 @@ import uuid
 
 import impl
 import lib
+import iotie
 from lib import coq_list
 
 COQ_TARGETS = ["theories/Proofs/SerdesLemmas.vo", "theories/Model/SerdesEq.vo"]
+COQ_TARGETS = COQ_TARGETS + [t for t in iotie.COQ_TARGETS if t not in COQ_TARGETS]
 THEOREMS = ["C14_full_holds", "C14_full_pinned_refuted", "C14_decode_carriers", "C14_load_carriers", "C14_carriers", "C14_json_text", "C14_literal_text",
             "C14_load_json", "C14_load_plain_text", "C14_load_nontext",
             "C14_refuted_bytearray", "C14_literal_carriers", "C14_refuted_resource"]
@@ -732,6 +734,7 @@ def correspond(run: lib.Run):
     if run.tier == "thorough":
         sub = [i for k, i in enumerate(inputs) if k % 3 == 0 or k < len(FIXED_STRINGS)]
     correspond_routines(run, sub, dict(dist, inputs_used=len(sub)))
+    lib.run_tie(run, iotie, streams=False)      # C14 load theorems hold of Core.load (Props/IoBridge.v); the core-io stream runs under C18
 
 
 # ----------------------------------------------------------------------------------
